@@ -29,7 +29,7 @@ BOUNDED = [
         "script": "replay/c08_native.py",
         "args_quick": [],
         "args_thorough": ["--thorough"],
-        "bound": "generated statements (8 scope shapes x 3 item kinds quick, 9 x 8 thorough) x every injective renaming of their local names (a seeded sample of 40 per statement when there are more) from a pool containing another table's bare name, a differently-cased table name and a mixed-case name (thorough: keyword-like names, target and schema names) x {AS, no AS} + alias removed; 4 sibling/nested-scope templates x 12 outer x 16 inner name choices incl. equal names in sibling scopes and inner == outer; both analyzers; oracle computed at construction",
+        "bound": "generated statements (8 scope shapes x 3 item kinds quick, 9 x 8 thorough) x every injective renaming of their local names (a seeded sample of 40 per statement when there are more) from a pool containing another table's bare name, a differently-cased table name and a mixed-case name (thorough: keyword-like names, target and schema names) x {AS, no AS} + alias removed; 4 sibling/nested-scope templates x 12 outer x 16 inner name choices incl. equal names in sibling scopes and inner == outer; both analyzers; oracle computed at construction; + 3 twin-table templates (same bare name in two schemas, qualifier with / without alias) x 12 name pairs; + 2 UPDATE ... FROM templates x 5 inner alias spellings (ansi)",
     }
 ]
 LEVEL_TEXT = (
